@@ -148,6 +148,7 @@ struct Item { std::string label; std::string text; };
 struct Ctx {
   std::vector<long double> vals;  // shadow values (tracing) or actual inputs (native)
   size_t next{0};
+  std::vector<long long> params;  // run-time parameters of an entry family (enumerator values, ...)
   std::vector<int> arg_sizes;
   std::vector<Item> outs;
   std::string error;
@@ -158,6 +159,8 @@ struct Ctx {
     // default driving value: distinct, positive, not special
     return 1.25L + 0.375L * static_cast<long double>(i);
   }
+
+  long long param(size_t i) const { return i < params.size() ? params[i] : 0; }
 
   template <typename T>
   T in() {
@@ -202,6 +205,15 @@ struct Ctx {
   std::array<U, N> make_array() {
     const size_t before = next;
     std::array<U, N> a;
+    for (auto& e : a) e = in<U>();
+    arg_sizes.push_back(static_cast<int>(next - before));
+    return a;
+  }
+
+  template <typename U>
+  std::vector<U> make_vector(size_t n) {
+    const size_t before = next;
+    std::vector<U> a(n);
     for (auto& e : a) e = in<U>();
     arg_sizes.push_back(static_cast<int>(next - before));
     return a;
